@@ -22,9 +22,20 @@ BASIS = 50000.0      # wall-clock basis of the replay (s)
 EPOCH = 100000.0     # tick 0 (historical, s)
 STN = {0: "I", 1: "W", 2: "S", 3: "X", 4: "A", 5: "C", 6: "F"}
 RAW_PAYLOAD = {"null": "null", "note": json.dumps("a note"), "badjson": '{"40001": 12', "badregs": "[1, 2]",
-               "empty": "{}", "badval": '{"40001": "x"}', "zero": "0"}
-CORRUPT = ["2014-0x-01 00:00:00.000\tnull\t{}\n", "garbage without tabs\n",
-           "1970-01-02 03:46:40.000\t{bad\t{\"1\": 2}\n"]
+               "empty": "{}", "badval": '{"40001": "x"}', "zero": "0", "cut": ""}
+VALID_TS = "1970-01-02 03:46:40.000"
+# lines from which parse_record cannot get a timestamp and a serial number ("corrupt records"):
+CORRUPT = ["2014-0x-01 00:00:00.000\tnull\t{}\n",          # 0 damaged timestamp
+           "garbage without tabs\n",                        # 1 no structure at all
+           VALID_TS + "\t{bad\t{\"1\": 2}\n",                # 2 damaged serial number
+           VALID_TS + "\n",                                  # 3 cut off right after a complete timestamp
+           VALID_TS + "\tnull\n",                            # 4 cut off right after the serial number
+           VALID_TS[:13] + "\n",                             # 5 cut off inside the timestamp
+           "\tnull\t{\"40001\": 1}\n",                       # 6 timestamp missing
+           VALID_TS + "\t\t{\"40001\": 1}\n",                 # 7 serial number missing
+           "\u00ff\u00fe\u0000\u00e9 " + VALID_TS + "\tnull\t{}\n"]  # 8 bytes that are not ASCII
+NCORRUPT = len(CORRUPT)
+BADJSON = ("badjson", "cut")
 
 
 class Hang(BaseException):
@@ -130,6 +141,11 @@ class C18(Suite):
                          {"ext": "", "lines": [R(1020, 4), R(1030, 5)]}], "hist": 990, "loads": step(990, 8), "scale": 100}
         yield {"files": [{"ext": "", "lines": [R(1000, 1), ["c"], ["r", 1005, "badjson"], R(1010, 2), R(1020, 3)]}],
                "hist": 990, "loads": step(990, 8), "scale": 100}
+        # every kind of corrupt record after the initial frame of a rotated file, one at a time
+        for k in range(NCORRUPT):
+            yield {"files": [{"ext": ".0", "lines": [["c"], R(1000, 1), R(1010, 2), ["x", k], R(1020, 3)]},
+                             {"ext": "", "lines": [R(1030, 4), ["r", 1035, "cut"], R(1040, 5)]}],
+                   "hist": 990, "loads": step(990, 8), "scale": 100}
         # the start point (1100) is scheduled 3 wall-clock seconds (30 ticks at factor 10) after the first call
         yield {"files": [{"ext": "", "lines": [["r", 1000, {"40001": 1, "40002": 5}], R(1090, 2), R(1096, 6, 40002), R(1110, 3)]}],
                "hist": 1100, "factor": [10, 1], "loads": [[1070 + 2 * i, None, None] for i in range(26)], "scale": 1000}
@@ -185,14 +201,14 @@ class C18(Suite):
                 elif j == 0:
                     p = rng.choice(["null", "note", "badregs", "empty", "badval", "zero"])
                 else:
-                    p = rng.choice(["null", "note", "badjson", "badregs", "empty", "badval", "zero"])
+                    p = rng.choice(["null", "note", "badjson", "cut", "badregs", "empty", "badval", "zero"])
                 if rng.random() < 0.15 and (j > 0 or malformed):
-                    lines.append(rng.choice([["c"], ["b"], ["x", rng.randint(0, 2)]]))
+                    lines.append(rng.choice([["c"], ["b"], ["b", 1], ["x", rng.randrange(NCORRUPT)], ["x", rng.randrange(NCORRUPT)]]))
                 elif rng.random() < 0.05:
                     lines.append(rng.choice([["c"], ["b"]]))
                 lines.append(["r", t, p])
             if rng.random() < 0.1:
-                lines.append(rng.choice([["c"], ["x", 0], ["x", 1]]))
+                lines.append(rng.choice([["c"], ["x", rng.randrange(NCORRUPT)]]))
             f = {"ext": exts[nf - 1 - i], "lines": lines}
             if (f["ext"] or (malformed and rng.random() < 0.1)) and rng.random() < 0.3:
                 f["copies"] = rng.choice([[".gz"], [".bz2"], [".gz", ".bz2"]])
@@ -256,7 +272,7 @@ class C18(Suite):
             return False
         for f in order:
             fr = self.first_record(f)
-            if fr is None or fr[2] == "badjson":
+            if fr is None or fr[2] in BADJSON:
                 return False
             if f["ext"] == "" and f.get("copies"):
                 return False
@@ -305,7 +321,7 @@ class C18(Suite):
     def payload_token(p):
         if isinstance(p, dict):
             return "+".join("%d/%d" % (k, v) for k, v in sorted((int(k), v) for k, v in p.items())) or "e"
-        return {"empty": "e", "zero": "e", "badjson": "b"}.get(p, "s")
+        return {"empty": "e", "zero": "e", "badjson": "b", "cut": "b"}.get(p, "s")
 
     def model_line(self, c):
         if "natural" in c:
@@ -348,9 +364,9 @@ class C18(Suite):
                     elif ln[0] == "c":
                         l.comment("rotated")
                     elif ln[0] == "b":
-                        l._append("\n")
+                        l._append("   \t \n" if len(ln) > 1 and ln[1] else "\n")
                     else:
-                        l._append(CORRUPT[(ln[1] if len(ln) > 1 else 0) % 3])
+                        l._append(CORRUPT[(ln[1] if len(ln) > 1 else 0) % NCORRUPT], encoding="latin-1")
             for c in f.get("copies", []):
                 with hf.opener(fn + c, mode="wb") as fd:
                     with open(fn, "rb") as rd:
